@@ -48,6 +48,7 @@ class Contract:
         self.await_hook = kw.pop("await_hook", None)
         self.max_paths = kw.pop("max_paths", 4000)
         self.ghost = kw.pop("ghost", {})  # name -> Spec: universally quantified ghost constants of the contract
+        self.smt_options = kw.pop("smt_options", {})  # merged into the meta of every obligation of the function
         self.returns = kw.pop("returns", None)  # the exact result as a function of the arguments (must follow from ensures)
         self.impl = kw.pop("impl", None)  # python stand-in executed by callers (assumed contract given as code)
         self.inline = kw.pop("inline", False)  # callers execute the body; on_inline(args, result) records ghosts
@@ -509,7 +510,38 @@ class Obligation:
         self.result = None
 
     def smt(self, getvals=()):
-        return tm.query(self.decls, self.hyps, self.goal, getvals=getvals)
+        text = tm.query(self.decls, self.hyps, self.goal, getvals=getvals)
+        if self.meta.get("abstract_strings"):
+            text = abstract_strings(text)
+        return text
+
+
+def abstract_strings(text: str) -> str:
+    """Print a query that uses strings only as opaque values (no str.* operation) over an uninterpreted
+    sort: string literals become distinct constants.  Raises if a string operation occurs."""
+    import re
+
+    if re.search(r"\(str\.|\(re\.", text):
+        return text  # string operations present: keep the string theory
+    lits = {}
+
+    def lit(m):
+        s = m.group(0)
+        if s not in lits:
+            lits[s] = f"strlit!{len(lits)}"
+        return lits[s]
+
+    body = re.sub(r'"(?:[^"]|"")*"', lit, text)
+    body = body.replace("String", "PathS")
+    decl = ["(declare-sort PathS 0)"] + [f"(declare-fun {n} () PathS)" for n in lits.values()]
+    if len(lits) > 1:
+        decl.append("(assert (distinct " + " ".join(lits.values()) + "))")
+    head, rest = body.split("\n", 1)
+    opts = []
+    while rest.startswith("(set-option"):
+        o, rest = rest.split("\n", 1)
+        opts.append(o)
+    return "\n".join([head, *opts, *decl, rest])
 
 
 class FnReport:
@@ -665,7 +697,8 @@ def verify_function(con: Contract) -> FnReport:
         rep.callees |= c.data.get("callees", set())
         pidx = rep.paths - 1
         for name, hyps, goal, meta in c.obligations:
-            rep.obligations.append(Obligation(f"{con.name}/{name}/path{pidx}", hyps, goal, decls, meta))
+            rep.obligations.append(Obligation(f"{con.name}/{name}/path{pidx}", hyps, goal, decls,
+                                              dict(con.smt_options, **meta)))
     rep.seconds = time.time() - t0
     return rep
 
